@@ -3,6 +3,7 @@ from __future__ import annotations
 import sys
 
 from pyhf import events, exceptions
+from pyhf import _verif
 from pyhf.optimize import OptimizerRetriever
 from pyhf.tensor import BackendRetriever
 from pyhf.typing import Optimizer, Protocol, TensorBackend, TypedDict
@@ -173,6 +174,16 @@ def set_backend(
     optimizer_changed = bool(this.state['current'][1] != new_optimizer)
     # set new backend
     this.state['current'] = (new_backend, new_optimizer)
+    if _verif.ON:
+        _verif.emit(
+            "set_backend.swap",
+            name=new_backend.name,
+            precision=new_backend.precision,
+            optimizer=new_optimizer.name,
+            tensorlib_changed=tensorlib_changed,
+            optimizer_changed=optimizer_changed,
+            default=bool(default),
+        )
     if default:
         default_tensorlib_changed = bool(
             (new_backend.name != this.state['default'][0].name)
@@ -192,5 +203,14 @@ def set_backend(
         events.trigger("tensorlib_changed")()
     if optimizer_changed:
         events.trigger("optimizer_changed")()
+    if _verif.ON:
+        _verif.emit("set_backend.fired")
     # set up any other globals for backend
     new_backend._setup()
+    if _verif.ON:
+        _verif.emit(
+            "set_backend.done",
+            default_name=this.state['default'][0].name,
+            default_precision=this.state['default'][0].precision,
+            default_optimizer=this.state['default'][1].name,
+        )
